@@ -180,10 +180,36 @@ def rows_along_an_edge(lot, rot_deg):
     return False
 
 
+def row_through_vertex(lot, spacing, rot_deg):
+    """degenerate geometry: some row of the documented construction (rows spread evenly over the lot's extent normal to the row
+    direction, floor(extent / spacing) of them) passes exactly through a vertex that is not the single lowest / highest one"""
+    if rot_deg is None:
+        return False
+    r = math.radians(rot_deg)
+    nx, ny = -math.sin(r), math.cos(r)
+    lv = [p[0] * nx + p[1] * ny for p in lot]
+    lo, hi = min(lv), max(lv)
+    d = hi - lo
+    n = int(d // spacing) if spacing > 0 else 0
+    tol = 1e-7 * max(1.0, d)
+    if sum(1 for x in lv if abs(x - lo) < tol) > 1 or sum(1 for x in lv if abs(x - hi) < tol) > 1:
+        return True  # the first or last row runs along an edge / through two vertices
+    if n < 1:
+        return False
+    pitch = d / n
+    for x in lv:
+        if abs(x - lo) < tol or abs(x - hi) < tol:
+            continue
+        k = (x - lo) / pitch
+        if abs(k - round(k)) * pitch < tol:
+            return True
+    return False
+
+
 def check_field(res, case, lot, pts, spacing, what, nogo=None, check_spacing=True, rot_deg=None):
     pts = np.asarray(pts, dtype=float).reshape(-1, 2)
     if len(pts) == 0:
-        res["violations"].append(core.viol("empty_field", case, msg=f"{what}: no borehole generated", what=what))
+        res["violations"].append(core.viol("empty_field", case, msg=f"{what}: no borehole generated", row_through_vertex=row_through_vertex(lot, spacing, rot_deg)))
         return
     ok = inside_convex(lot, pts)
     if not ok.all():
@@ -202,7 +228,8 @@ def check_field(res, case, lot, pts, spacing, what, nogo=None, check_spacing=Tru
             res["violations"].append(core.viol("spacing_below_target", case, observed=d, expected=spacing,
                                                msg=f"{what}: nearest-neighbour distance {d:.6f} m below the target spacing {spacing}",
                                                rows_vertical=(rot_deg is not None and abs(abs(rot_deg) - 90.0) < 1e-4),
-                                               rows_along_an_edge=(rot_deg is not None and rows_along_an_edge(lot, rot_deg))))
+                                               rows_along_an_edge=(rot_deg is not None and rows_along_an_edge(lot, rot_deg)),
+                                               row_through_vertex=row_through_vertex(lot, spacing, rot_deg)))
 
 
 def run_single(case, res):
@@ -251,7 +278,8 @@ def run_single(case, res):
                 same = len(p0) == len(p1) and all(abs(u[0] - w[0]) < 1e-4 and abs(u[1] - w[1]) < 1e-4 for u, w in zip(p0, p1))
                 if not same:
                     res["violations"].append(core.viol("translation_changes_field", dict(case, rots=[rot]), observed=[len(p0), len(p1)],
-                                                       msg=f"lot {lot} at rotation {rot}: {len(p0)} boreholes, translated by ({a},{b}): {len(p1)} boreholes / different positions", rotation=rot))
+                                                       msg=f"lot {lot} at rotation {rot}: {len(p0)} boreholes, translated by ({a},{b}): {len(p1)} boreholes / different positions",
+                                                       row_through_vertex=row_through_vertex(lot, spacing, rot)))
 
 
 def run_rect(case, res):
